@@ -273,6 +273,8 @@ Definition F_i4 := 14. Definition F_i5 := 15. Definition F_i6 := 16. Definition 
 (* fields that do not exist before the call *)
 Definition F_new0 := 30. Definition F_new1 := 31. Definition F_new2 := 32. Definition F_new3 := 33.
 Definition F_new4 := 34. Definition F_new5 := 35.
+(* SlidingBoundariesArchive: the entries of the solution buffer (fields of the last buffered entry) *)
+Definition F_buf0 := 40. Definition F_buf1 := 41. Definition F_buf2 := 42. Definition F_buf3 := 43.
 
 Definition init_self : env :=
   map (fun b => (b, fresh_val b)) (seq 0 n_store) ++ map (fun b => (3 + b, fresh_val b)) (seq n_store (n_internal - n_store)).
@@ -299,7 +301,8 @@ Inductive ep :=
 | BaseTell | ESTell | GAETell | GAETellDqd | GOETellDqd
 | SchedTell | SchedTellDqd | BanditTell
 | AdamCtor | AdamReset | AdamStep | GAscCtor | GAscReset | GAscStep
-| ParallelAxes | HeatmapDf.
+| ParallelAxes | HeatmapDf
+| EmitterAsk.
 
 Definition ep_of_nat (n : nat) : option ep :=
   match n with
@@ -314,7 +317,7 @@ Definition ep_of_nat (n : nat) : option ep :=
   | 35 => Some GACtor | 36 => Some BaseTell | 37 => Some ESTell | 38 => Some GAETell | 39 => Some GAETellDqd
   | 40 => Some GOETellDqd | 41 => Some SchedTell | 42 => Some SchedTellDqd | 43 => Some BanditTell
   | 44 => Some AdamCtor | 45 => Some AdamReset | 46 => Some AdamStep | 47 => Some GAscCtor | 48 => Some GAscReset
-  | 49 => Some GAscStep | 50 => Some ParallelAxes | 51 => Some HeatmapDf
+  | 49 => Some GAscStep | 50 => Some ParallelAxes | 51 => Some HeatmapDf | 52 => Some EmitterAsk
   | _ => None
   end.
 
@@ -325,13 +328,13 @@ Definition all_eps : list ep :=
    IndexOf; IndexOfSingle; CVTCtorCentroids; CVTCtorSamples; GridCtor; CqdScore; ComputeNovelty;
    GaussianCtor; IsoLineCtor; ESCtor; GAECtor; GOECtor; GACtor;
    BaseTell; ESTell; GAETell; GAETellDqd; GOETellDqd; SchedTell; SchedTellDqd; BanditTell;
-   AdamCtor; AdamReset; AdamStep; GAscCtor; GAscReset; GAscStep; ParallelAxes; HeatmapDf].
+   AdamCtor; AdamReset; AdamStep; GAscCtor; GAscReset; GAscStep; ParallelAxes; HeatmapDf; EmitterAsk].
 
 (** argument counts: (without optional extra field, with) *)
 Definition arities (e : ep) : list nat :=
   match e with
   | StoreAdd => [4] | StoreRetrieve => [1] | StoreFromRaw => [2]
-  | StoreData | StoreIter | StoreRaw | StoreOccupied | SampleElites | ArchiveData | BestElite | ArchiveIter => [0]
+  | StoreData | StoreIter | StoreRaw | StoreOccupied | SampleElites | ArchiveData | BestElite | ArchiveIter | EmitterAsk => [0]
   | ArchiveAdd | ArchiveAddSingle | SlidingAdd | SlidingAddSingle | ProximityAdd | ProximityAddSingle => [3; 4]
   | ArchiveRetrieve | ArchiveRetrieveSingle | IndexOf | IndexOfSingle | CVTCtorCentroids | CVTCtorSamples => [1]
   | GridCtor | CqdScore | ComputeNovelty => [2]
@@ -352,6 +355,7 @@ Definition n_variants (e : ep) : nat :=
   | ESTell | GAETell => 2 | GAETellDqd | GOETellDqd => 2
   | SchedTell | BanditTell | SchedTellDqd => 6
   | ParallelAxes => 2
+  | EmitterAsk => 4
   | _ => 1
   end.
 
@@ -359,9 +363,11 @@ Definition n_variants (e : ep) : nat :=
 Definition T (k : nat) : var := 20 + k.
 
 (* ---------------------------------------------------------------------------------------------- *)
-(** ribs/_utils.py: validate_batch -- every array-like is passed through np.asarray WITHOUT dtype
-    (105, 122, 132, 143 data; 158, 168, 177 add_info; 190 jacobian) and rebinds data[name]. *)
-Definition validate_batch (regs : list var) : list instr := map (fun r => IAsarray r r false) regs.
+(** ribs/_utils.py: validate_batch -- every array-like is passed through np.asarray and rebinds data[name]; WITHOUT dtype
+    (105, 132, 143 data; 158, 168, 177 add_info; 190 jacobian) except the objective (124: dtype=archive.dtypes["objective"],
+    as validate_single does).  In every caller the registers are  solution objective measures ...  : objective is register 1. *)
+Definition validate_batch (regs : list var) : list instr :=
+  map (fun kr => IAsarray (snd kr) (snd kr) (Nat.eqb (fst kr) 1)) (combine (seq 0 (length regs)) regs).
 
 (** ribs/_utils.py: validate_single -- solution (205) and measures (217) np.asarray, objective np_scalar (213,
     a fresh scalar); extra fields are NOT converted. *)
@@ -438,9 +444,9 @@ Definition has_extra_arg (e : ep) (nargs : nat) : bool := Nat.eqb nargs (last (a
     [C12-required copy; unchanged code appends the validated dict itself, i.e. the caller's arrays / row views: F4] *)
 Definition sliding_buffer_entry (copy : bool) (sol obj meas : var) (ev : option var) : list instr :=
   (if copy then [ICopy (T 70) sol; ICopy (T 71) meas] else [IMove (T 70) sol; IMove (T 71) meas])
-  ++ [ISetSelf F_new0 (T 70); ISetSelf F_new1 obj; ISetSelf F_new2 (T 71)]
+  ++ [ISetSelf F_buf0 (T 70); ISetSelf F_buf1 obj; ISetSelf F_buf2 (T 71)]
   ++ match ev with
-     | Some e => (if copy then [ICopy (T 72) e] else [IMove (T 72) e]) ++ [ISetSelf F_new3 (T 72)]
+     | Some e => (if copy then [ICopy (T 72) e] else [IMove (T 72) e]) ++ [ISetSelf F_buf3 (T 72)]
      | None => []
      end.
 
@@ -611,7 +617,7 @@ Definition prog_gen (copy : bool) (e : ep) (variant nargs : nat) : list instr :=
       [IGetSelf (T 1) F_occupied; IView (T 1) (T 1) true; IReadonly (T 1) (T 1); IReturn (T 1);
        IGetSelf (T 2) F_olist; IView (T 2) (T 2) true; IReadonly (T 2) (T 2); IReturn (T 2)]
   | StoreFromRaw =>                                        (* 567-600; args: a props array, a field array *)
-      (* [C12-required copy; unchanged code stores the caller's arrays themselves (596-597): F16] *)
+      (* [C12-required copy; unchanged code stores the caller's arrays themselves (596-597): FC12a] *)
       (if copy then [ICopy (T 1) 0; ICopy (T 2) 1] else [IMove (T 1) 0; IMove (T 2) 1])
       ++ [ISetSelf F_new0 (T 1); ISetSelf F_new1 (T 2)]
   (* ---- archives ---- *)
@@ -626,7 +632,7 @@ Definition prog_gen (copy : bool) (e : ep) (variant nargs : nat) : list instr :=
       ++ sliding_buffer_entry copy 0 1 2 (opt_ev e nargs 3)        (* 449 *)
       ++ (if Nat.eqb variant 1 then
             (* _remap 340-391: cur_data = store.data() (fresh), buffer entries concatenated (383: fresh), re-added *)
-            [IGetSelf (T 140) F_new0; IGetSelf (T 141) F_new1; IGetSelf (T 142) F_new2;
+            [IGetSelf (T 140) F_buf0; IGetSelf (T 141) F_buf1; IGetSelf (T 142) F_buf2;
              IOp (T 143) [T 140] 50; IOp (T 144) [T 141] 50; IOp (T 145) [T 142] 50;
              IOp (T 0) [T 145] 16; IGetSelf (T 146) F_occupied; IInplace (T 146) [] 51]       (* clear() 386 *)
             ++ store_write (T 0) [(F_solution, T 143); (F_objective, T 144); (F_measures, T 145)]
@@ -726,7 +732,7 @@ Definition prog_gen (copy : bool) (e : ep) (variant nargs : nat) : list instr :=
       emitter_start copy (Nat.eqb variant 1) 0 ++ emitter_bounds 1 ++ [ICopy (T 19) 2; ISetSelf F_new4 (T 19)]      (* 146 np.array(sigma) *)
   | GACtor =>                                              (* _genetic_algorithm_emitter.py 52-85, operators/_gaussian.py 23 *)
       emitter_start copy (Nat.eqb variant 1) 0 ++ emitter_bounds 1
-      (* [C12-required copy; unchanged GaussianOperator keeps `sigma` as passed: F15] *)
+      (* [C12-required copy; unchanged GaussianOperator keeps `sigma` as passed: FC12b] *)
       ++ (if copy then [ICopy (T 19) 2] else [IMove (T 19) 2]) ++ [ISetSelf F_new4 (T 19)]
   (* ---- emitters: tell / tell_dqd; args solution objective measures [jacobian] status value [extra] ---- *)
   | BaseTell => emitter_tell 0 false (seq 0 nargs)
@@ -768,6 +774,22 @@ Definition prog_gen (copy : bool) (e : ep) (variant nargs : nat) : list instr :=
           else [])
       ++ [ICopy (T 2) (T 1); ICopy (T 3) (T 1)]            (* 173-174 get_field: to_numpy(copy=True) *)
   | HeatmapDf => [IAsarray (T 1) 0 true; ICopy (T 2) (T 1); ICopy (T 3) (T 1)]
+  (* ---- emitters: ask / ask_dqd (no array arguments; what is handed out) ---- *)
+  | EmitterAsk =>
+      match variant with
+      | 1 =>                                               (* ES / GAE.ask: opt.ask() allocates self._solutions anew (_cma_es.py 190) and
+                                                              returns readonly(self._solutions) (221) *)
+          [IOp (T 1) [] 100; ISetSelf F_i0 (T 1); IReadonly (T 2) (T 1); IReturn (T 2)]
+      | 2 =>                                               (* GOE.ask_dqd: self._parents = sol; return self._parents (fresh, kept) *)
+          [IGetSelf (T 1) F_solution; IOp (T 2) [T 1] 1; IOp (T 3) [T 2] 102; ISetSelf F_i1 (T 3); IReturn (T 3)]
+      | 3 =>                                               (* GAE.ask_dqd (_gradient_arborescence_emitter.py 261)
+                                                              [C12-required copy; unchanged code returns the VIEW theta[None] of the gradient
+                                                               optimizer's theta, which step() later updates in place: FC12c] *)
+          [IGetSelf (T 1) F_i2] ++ (if copy then [ICopy (T 2) (T 1)] else [IView (T 2) (T 1) true]) ++ [IReturn (T 2)]
+      | _ =>                                               (* Gaussian / IsoLine / GA / GOE.ask: parents from sample_elites (fresh) or x0 /
+                                                              initial_solutions, + noise, np.clip: fresh *)
+          [IGetSelf (T 1) F_solution; IOp (T 2) [T 1] 1; IOp (T 3) [T 2] 102; IReturn (T 3)]
+      end
   end.
 
 Definition prog := prog_gen true.
